@@ -59,13 +59,17 @@ def setvers (c : Case) : Verdict :=
       let tag := s!"{kind},err:{cls}"
       if c.output.getD "err" "?" == cls then .ok tag else .diff tag s!"err={cls}"
     | .ok (a, b) =>
-      let base : ClientCtx := { cfgMin := 0, cfgMax := 0, ecdheGroup := 0, hybridKeys := false }
+      -- what the Config held before the call: irrelevant unless an ECH config list is set
+      let (c0min, c0max) := match (listOf (c.input.getD "cfg0" "-")).map hex16? with
+        | [some a', some b'] => (a', b')
+        | _ => (0, 0)
+      let base : ClientCtx := { cfgMin := c0min, cfgMax := c0max, ecdheGroup := 0, hybridKeys := false }
       let ctx := ctxOfVers a b ech base
       let len := makeSupportedVersionsLen a b
       let head := (List.range (min len 6)).map (makeSupportedVersionsAt b)
       let model := s!"err=- cfg={hex4 ctx.cfgMin},{hex4 ctx.cfgMax} svlen={len} svhead={hexList head} accepts={hexList (cfgVersions ctx)}"
       let implS := s!"err={c.output.getD "err" "?"} cfg={c.output.getD "cfg" "?"} svlen={c.output.getD "svlen" "?"} svhead={c.output.getD "svhead" "?"} accepts={c.output.getD "accepts" "?"}"
-      let tag := s!"{kind},ok{if ech then ",ech" else ""}{if (cfgVersions ctx).isEmpty then ",empty" else ""}"
+      let tag := s!"{kind},ok{if ech then ",ech" else ""}{if c0min != 0 || c0max != 0 then ",pinned" else ""}{if (cfgVersions ctx).isEmpty then ",empty" else ""}"
       if implS == model then .ok tag else .diff tag model
   | _, _, _ => .bad "c13_setvers: bad input"
 
